@@ -38,7 +38,13 @@ def Guard.accepts (g : Guard) (c : UInt8) : Bool := c.toNat < 128 && g.holds c
 /-- Parser expressions: the trees from which the harness builds the real
     `AsciiChar / Sequence / Alternate / Star / Not` values. -/
 inductive E where
-  | chr (g : Guard)
+  /-- a single-byte parser with guard `g`.  `raw = false`: the crate's `AsciiChar` (leaves the
+      cursor alone when it fails).  `raw = true`: an operand with the cursor discipline of many
+      hand-written parsers of the crate (arrays, dictionaries, xref entries …): it has consumed the
+      byte when the guard rejects it and does *not* put the cursor back.  The textbook semantics
+      has no cursor, so `Peg` does not look at the flag; raw operands exist to exercise the
+      restores that the *combinators* perform themselves. -/
+  | chr (g : Guard) (raw : Bool := false)
   | seq (a b : E)
   | alt (a b : E)
   | star (a : E)
@@ -62,9 +68,9 @@ abbrev Outcome := Option (Shape × Nat)
 
 /-- The standard backtracking (PEG) semantics. -/
 inductive Peg : E → Bytes → Outcome → Prop where
-  | chr_ok {g c x} : g.accepts c = true → Peg (.chr g) (c :: x) (some (.ch c, 1))
-  | chr_rej {g c x} : g.accepts c = false → Peg (.chr g) (c :: x) none
-  | chr_eof {g} : Peg (.chr g) [] none
+  | chr_ok {g w c x} : g.accepts c = true → Peg (.chr g w) (c :: x) (some (.ch c, 1))
+  | chr_rej {g w c x} : g.accepts c = false → Peg (.chr g w) (c :: x) none
+  | chr_eof {g w} : Peg (.chr g w) [] none
   /- a sequence succeeds iff both parts succeed in order -/
   | seq_ok {a b x va n vb m} :
       Peg a x (some (va, n)) → Peg b (x.drop n) (some (vb, m)) →
@@ -86,10 +92,15 @@ inductive Peg : E → Bytes → Outcome → Prop where
   | not_ok {a x} : Peg a x none → Peg (.not a) x (some (.unit, 0))
   | not_fail {a x v n} : Peg a x (some (v, n)) → Peg (.not a) x none
 
+/-- Is `e` a bare raw operand (the only expressions that may leave the cursor moved on failure)? -/
+def E.isRaw : E → Bool
+  | .chr _ raw => raw
+  | _ => false
+
 /-- "The operand consumes input": a syntactic guarantee that every success of
     `e` consumes at least one byte. -/
 def consumes : E → Bool
-  | .chr _ => true
+  | .chr _ _ => true
   | .seq a b => consumes a || consumes b
   | .alt a b => consumes a && consumes b
   | .star _ => false
@@ -99,7 +110,7 @@ def consumes : E → Bool
     consume input (otherwise `Star::parse` and the textbook semantics both
     diverge). -/
 def StarBodiesConsume : E → Bool
-  | .chr _ => true
+  | .chr _ _ => true
   | .seq a b => StarBodiesConsume a && StarBodiesConsume b
   | .alt a b => StarBodiesConsume a && StarBodiesConsume b
   | .star a => consumes a && StarBodiesConsume a
@@ -125,8 +136,8 @@ def starEval (p : Bytes → Option Outcome) : Nat → Bytes → Option (List Sha
       | none => none
 
 def pegEval : E → Bytes → Option Outcome
-  | .chr _, [] => some none
-  | .chr g, c :: _ => if g.accepts c then some (some (.ch c, 1)) else some none
+  | .chr _ _, [] => some none
+  | .chr g _, c :: _ => if g.accepts c then some (some (.ch c, 1)) else some none
   | .seq a b, x =>
     match pegEval a x with
     | none => none
